@@ -2,16 +2,19 @@
 
 PROPS = {
     'C07': {
+        'translated': ['GetPathQueryFragment', 'stringMatch', 'matchTriggerRule', 'mustTriggerCheck'],
         'theorems': ['trigger_spec', 'path_component', 'query_irrelevant', 'fragment_irrelevant',
-                     'query_fragment_irrelevant', 'decision_depends_on_path_only', 'splitter_total'],
+                     'query_fragment_irrelevant', 'decision_depends_on_path_only', 'splitter_total',
+                     'code_trigger_spec', 'code_decision_depends_on_path_only', 'code_splitter'],
         'trusted': ['regexp.MatchString is an oracle of the model (its results on the strings in play are input columns)',
                     'hand-written model of mustTriggerCheck/matchTriggerRule/stringMatch/GetPathQueryFragment, tied by the differential run'],
         'assumptions': ['request targets are valid UTF-8 (gRPC rejects other proto3 strings); the byte-level model is exact for all byte strings anyway'],
     },
     'C08': {
+        'translated': ['matches'],
         'theorems': ['check_eq_judge', 'first_match_wins', 'no_criterion_matches', 'criterion_semantics',
                      'configured_name_case_irrelevant', 'all_must_allow', 'stops_at_first_denial',
-                     'handler_error_no_verdict', 'default_deny', 'untriggered_allowed'],
+                     'handler_error_no_verdict', 'default_deny', 'untriggered_allowed', 'code_matches_spec'],
         'trusted': ['filters are abstract functions Resp -> Option Resp in the theorems; the differential run uses mock filters',
                     'configured header names are ASCII (strings.ToLower is modelled on ASCII)'],
         'assumptions': ['header maps have unique keys (Go map)'],
@@ -62,7 +65,8 @@ PROPS = {
         'trusted': ['hand-written interaction-tree model of Process/redirectToIDP/retrieveTokens/refreshToken (AuthModel/Oidc/Handler.lean), tied to the code by the differential run (response + ordered action trace per request line)', 'oracles: jwt parsing and claims (jwx), JWS verification (checked against an independent stdlib RSA verification in the harness), SHA-256/base64url; url.Parse of the callback URI', 'response bodies of library errors returned by Check are outside the model (scanned by the monitor)'],
     },
     'C15': {
-        'theorems': ['verdict_wellformed', 'nonstring_nonce_is_invalid', 'splitter_in_bounds', 'no_unexpected_type_assertions', 'no_unexpected_index_or_slice', 'no_explicit_panics'],
+        'translated': ['GetPathQueryFragment', 'stringMatch', 'matchTriggerRule', 'mustTriggerCheck', 'matches'],
+        'theorems': ['verdict_wellformed', 'nonstring_nonce_is_invalid', 'splitter_in_bounds', 'no_unexpected_type_assertions', 'no_unexpected_index_or_slice', 'no_explicit_panics', 'code_trigger_path_never_panics'],
         'trusted': ['hand-written interaction-tree model of Process/redirectToIDP/retrieveTokens/refreshToken (AuthModel/Oidc/Handler.lean), tied to the code by the differential run (response + ordered action trace per request line)', 'oracles: jwt parsing and claims (jwx), JWS verification (checked against an independent stdlib RSA verification in the harness), SHA-256/base64url; url.Parse of the callback URI', 'library code (jwx, encoding/json, url.ParseQuery, go-redis) is sampled by the differential run, not proved'],
     },
     'C03': {
